@@ -41,7 +41,11 @@ impl Have {
     }
 
     pub fn check(available_data: usize, length: usize) -> Result<usize, Error> {
-        match length == Have::LEN as usize && available_data >= Have::LEN_SIZE + length {
+        if length != Have::LEN as usize {
+            return Err(Error::InvalidLength("Have"));
+        }
+
+        match available_data >= Have::LEN_SIZE + length {
             true => Ok(Have::FULL_SIZE),
             false => Err(Error::Incomplete("Have")),
         }
